@@ -483,8 +483,12 @@ func (e *vecEnv) writeConstants(dir string, t tables, reAddOK bool) error {
 	if e.clustered() {
 		nl = e.nlist
 	}
-	cfg := fmt.Sprintf("SPECIFICATION TSpec\nCONSTANTS\n  Kind = \"%s\"\n  NV = %d\n  NQ = %d\n  Dist <- DistDef\n  TrueD <- TrueDDef\n  QErr <- QErrDef\n  CodeD <- CodeDDef\n  Eps = %d\n  NList = %d\n  QC <- QCDef\n  VC <- VCDef\n  EpsC = %d\n  ReAddOK = %s\nPOSTCONDITION Accepted\nCHECK_DEADLOCK FALSE\n",
-		e.kind, e.NV, e.NQ, e.eps, nl, e.epsC, strings.ToUpper(fmt.Sprint(reAddOK)))
+	hnswExact := 0
+	if e.kind == "hnsw" && e.efC >= 2*e.hM && e.efS >= 2*e.hM {
+		hnswExact = 2 * e.hM
+	}
+	cfg := fmt.Sprintf("SPECIFICATION TSpec\nCONSTANTS\n  Kind = \"%s\"\n  NV = %d\n  NQ = %d\n  Dist <- DistDef\n  TrueD <- TrueDDef\n  QErr <- QErrDef\n  CodeD <- CodeDDef\n  Eps = %d\n  NList = %d\n  QC <- QCDef\n  VC <- VCDef\n  EpsC = %d\n  HnswExact = %d\n  ReAddOK = %s\nPOSTCONDITION Accepted\nCHECK_DEADLOCK FALSE\n",
+		e.kind, e.NV, e.NQ, e.eps, nl, e.epsC, hnswExact, strings.ToUpper(fmt.Sprint(reAddOK)))
 	return os.WriteFile(filepath.Join(dir, "MCVec.cfg"), []byte(cfg), 0644)
 }
 
@@ -935,7 +939,7 @@ func drvVec(args []string) error {
 		t.ev("construct", E{"ok": false, "nbits": e.nbits})
 		t.close()
 		os.WriteFile(filepath.Join(*dir, "MCVec.tla"), []byte("---- MODULE MCVec ----\nEXTENDS VecT\nDistDef == <<>>\nTrueDDef == <<>>\nQErrDef == <<>>\nQCDef == <<>>\nVCDef == <<>>\nCodeDDef == <<>>\n====\n"), 0644)
-		cfg := fmt.Sprintf("SPECIFICATION TSpec\nCONSTANTS\n  Kind = \"%s\"\n  NV = 0\n  NQ = 0\n  Dist <- DistDef\n  TrueD <- TrueDDef\n  QErr <- QErrDef\n  CodeD <- CodeDDef\n  Eps = 0\n  NList = 1\n  QC <- QCDef\n  VC <- VCDef\n  EpsC = 0\n  ReAddOK = TRUE\nPOSTCONDITION Accepted\nCHECK_DEADLOCK FALSE\n", e.kind)
+		cfg := fmt.Sprintf("SPECIFICATION TSpec\nCONSTANTS\n  Kind = \"%s\"\n  NV = 0\n  NQ = 0\n  Dist <- DistDef\n  TrueD <- TrueDDef\n  QErr <- QErrDef\n  CodeD <- CodeDDef\n  Eps = 0\n  NList = 1\n  QC <- QCDef\n  VC <- VCDef\n  EpsC = 0\n  HnswExact = 0\n  ReAddOK = TRUE\nPOSTCONDITION Accepted\nCHECK_DEADLOCK FALSE\n", e.kind)
 		os.WriteFile(filepath.Join(*dir, "MCVec.cfg"), []byte(cfg), 0644)
 		fmt.Printf("CONFIG kind=%s nbits=%d constructor refused: %v\n", e.kind, e.nbits, err)
 		return nil
